@@ -63,8 +63,17 @@ fn json_num(x: f64) -> String {
     serde_json::to_string(&x).unwrap()
 }
 
-/// JSON DSL text; map keys are written in a stream-chosen order (the program sorts by name)
+/// JSON DSL document: the text of `json_node` with stream-chosen insignificant whitespace around
+/// it (JSON allows whitespace before and after the top-level value)
 pub fn to_json_text(tree: &T, s: &mut Stream) -> String {
+    let body = json_node(tree, s);
+    let lead = ["", "", "\n", "  ", "\r\n\t ", " \n\n"][s.below(6)];
+    let trail = ["", "\n", " \n", "\n\n\t"][s.below(4)];
+    format!("{}{}{}", lead, body, trail)
+}
+
+/// JSON DSL text; map keys are written in a stream-chosen order (the program sorts by name)
+pub fn json_node(tree: &T, s: &mut Stream) -> String {
     match tree {
         T::Term(p) => format!("{{\"terminal\": {}}}", json_num(*p)),
         T::Chance(label, outs) => {
@@ -72,7 +81,7 @@ pub fn to_json_text(tree: &T, s: &mut Stream) -> String {
                 .iter()
                 .enumerate()
                 .map(|(i, (w, t))| {
-                    let state = to_json_text(t, s);
+                    let state = json_node(t, s);
                     if s.bool() {
                         format!("{}: {{\"prob\": {}, \"state\": {}}}", json_str(&format!("o{}", i)), json_num(*w), state)
                     } else {
@@ -94,7 +103,7 @@ pub fn to_json_text(tree: &T, s: &mut Stream) -> String {
             format!("{{\"chance\": {{{}\"outcomes\": {{{}}}}}}}", info, items.join(", "))
         }
         T::Player(p, name, acts) => {
-            let mut items: Vec<String> = acts.iter().map(|(a, t)| format!("{}: {}", json_str(a), to_json_text(t, s))).collect();
+            let mut items: Vec<String> = acts.iter().map(|(a, t)| format!("{}: {}", json_str(a), json_node(t, s))).collect();
             shuffle(s, &mut items);
             let mut fields = vec![
                 format!("\"player_one\": {}", if *p == 0 { "true" } else { "false" }),
@@ -213,6 +222,10 @@ pub struct EfgText {
     /// printed (library) infoset name per player and tree infoset name
     pub printed: [BTreeMap<String, String>; 2],
     pub interior_outcomes: usize,
+    /// interior references to an outcome that another node carries as well
+    pub shared_interior_outcomes: usize,
+    /// outcome numbers carried by interior nodes
+    pub interior_outcome_numbers: Vec<u64>,
     pub unnamed_infosets: usize,
 }
 
@@ -228,6 +241,19 @@ struct EfgCtx<'s, 'a> {
     shared_outcomes: BTreeMap<(u64, u64), (u64, String)>,
     opts: EfgOpts,
     interior: usize,
+    /// outcomes written so far that an interior node may refer to again: (number, u1, u2, payoff text, written at a terminal)
+    pool: Vec<(u64, f64, f64, String, bool)>,
+    /// every interior reference to a non-null outcome: (number, name allowed, defined by an interior node)
+    slots: Vec<Slot>,
+    shared_interior: usize,
+}
+
+struct Slot {
+    num: u64,
+    allow_name: bool,
+    /// the outcome's payoffs are written at a terminal anyway (a reference needs none)
+    terminal_outcome: bool,
+    pay: String,
 }
 
 /// Gambit text of the constant-sum game (u1 = tree payoff, u2 = constant - u1)
@@ -245,6 +271,9 @@ pub fn to_efg_text(tree: &T, opts: &EfgOpts, s: &mut Stream) -> EfgText {
         shared_outcomes: BTreeMap::new(),
         opts: opts.clone(),
         interior: 0,
+        pool: Vec::new(),
+        slots: Vec::new(),
+        shared_interior: 0,
     };
     // infoset numbers (arbitrary distinct positive numbers) and whether the infoset is named
     for p in 0..2 {
@@ -276,12 +305,52 @@ pub fn to_efg_text(tree: &T, opts: &EfgOpts, s: &mut Stream) -> EfgText {
         if ctx.s.bool() { format!("\n{}", efg_label("a comment")) } else { String::new() }
     );
     let sep = if ctx.s.bool() { "\n" } else { " " };
+    // Resolve the interior outcome references. An outcome's payoffs need to be written at one of
+    // the nodes that carry it; the others may give the number alone (before or after that node),
+    // or repeat the identical payoff list.
+    let mut by_num: BTreeMap<u64, Vec<usize>> = BTreeMap::new();
+    for (k, slot) in ctx.slots.iter().enumerate() {
+        by_num.entry(slot.num).or_default().push(k);
+    }
+    let mut slot_text: Vec<String> = vec![String::new(); ctx.slots.len()];
+    for (num, ks) in by_num.iter() {
+        let terminal = ctx.slots[ks[0]].terminal_outcome;
+        let definer = if terminal { usize::MAX } else { ks[ctx.s.below(ks.len().min(256))] };
+        for k in ks {
+            let slot = &ctx.slots[*k];
+            let name = if slot.allow_name && !terminal && ctx.s.bool() { format!(" {}", efg_label("bonus")) } else { String::new() };
+            slot_text[*k] = if *k == definer || ctx.s.chance(64) {
+                format!("{}{} {}", num, name, slot.pay)
+            } else {
+                format!("{}{}", num, name)
+            };
+        }
+    }
+    let resolve = |line: &str| -> String {
+        match line.find("@@") {
+            None => line.to_string(),
+            Some(a) => {
+                let rest = &line[a + 2..];
+                let b = rest.find("@@").unwrap();
+                let k: usize = rest[..b].parse().unwrap();
+                format!("{}{}{}", &line[..a], slot_text[k], &rest[b + 2..])
+            }
+        }
+    };
+    let lines: Vec<String> = ctx.lines.iter().map(|l| resolve(l)).collect();
+    for (m, l) in ctx.meta.iter_mut().zip(lines.iter()) {
+        m.text = l.clone();
+    }
+    let lead = ["", "", "\n", " \n  "][ctx.s.below(4)];
+    let trail = ["\n", "\n", "", "\n\n "][ctx.s.below(4)];
     EfgText {
-        text: format!("{}\n{}\n", header, ctx.lines.join(sep)),
+        text: format!("{}{}\n{}{}", lead, header, lines.join(sep), trail),
         header: header.clone(),
         lines: ctx.meta.clone(),
         printed,
         interior_outcomes: ctx.interior,
+        shared_interior_outcomes: ctx.shared_interior,
+        interior_outcome_numbers: ctx.slots.iter().map(|sl| sl.num).collect(),
         unnamed_infosets: unnamed,
     }
 }
@@ -302,13 +371,22 @@ fn efg_node(node: &T, ctx: &mut EfgCtx, acc1: f64, acc2: f64) {
     // (the pinned grammar has no outcome name on chance nodes)
     let interior = |ctx: &mut EfgCtx, allow_name: bool| -> (String, f64, f64) {
         if ctx.opts.interior && ctx.s.chance(64) {
+            ctx.interior += 1;
+            if !ctx.pool.is_empty() && ctx.s.chance(96) {
+                // an outcome some earlier node carries already
+                let (num, d1, d2, pay, terminal_outcome) = ctx.pool[ctx.s.below(ctx.pool.len().min(256))].clone();
+                ctx.shared_interior += 1;
+                ctx.slots.push(Slot { num, allow_name, terminal_outcome, pay });
+                return (format!("@@{}@@", ctx.slots.len() - 1), d1, d2);
+            }
             let d1 = (ctx.s.below(9) as f64 - 4.0) / 2.0;
             let d2 = (ctx.s.below(9) as f64 - 4.0) / 2.0;
             let num = ctx.next_outcome;
             ctx.next_outcome += 1;
-            ctx.interior += 1;
-            let name = if allow_name && ctx.s.bool() { format!(" {}", efg_label("bonus")) } else { String::new() };
-            (format!("{}{} {}", num, name, efg_payoffs(ctx, d1, d2)), d1, d2)
+            let pay = efg_payoffs(ctx, d1, d2);
+            ctx.pool.push((num, d1, d2, pay.clone(), false));
+            ctx.slots.push(Slot { num, allow_name, terminal_outcome: false, pay });
+            (format!("@@{}@@", ctx.slots.len() - 1), d1, d2)
         } else {
             ("0".to_string(), 0.0, 0.0)
         }
@@ -328,6 +406,9 @@ fn efg_node(node: &T, ctx: &mut EfgCtx, acc1: f64, acc2: f64) {
                         ctx.next_outcome += 1;
                         let text = efg_payoffs(ctx, l1, l2);
                         ctx.shared_outcomes.insert(key, (n, text.clone()));
+                        if l1.abs() <= 4.0 && l2.abs() <= 4.0 {
+                            ctx.pool.push((n, l1, l2, text.clone(), true));
+                        }
                         (n, text)
                     }
                 }
